@@ -570,7 +570,7 @@ def directed():
     S.append(('eq-in-call-actual', hdr + 'func f(val x) is return x + 1\nproc main() is exit(f(1) = 2)\n', [[]]))
     S.append(('eq-in-call-actual-2', hdr + 'var c;\nfunc f0(val a, val b) is return a + b\nproc main() is { c := 1; put(f0(1 = c, 1) + 64, 0) }\n', [[]]))
     S.append(('subscript-with-input', hdr + 'array a[10];\nproc main() is var i;\n{ i := 0; while i < 10 do { a[i] := i + i; i := i + 1 }; exit(a[get(0) - 48]) }\n', [[49], [52, 53], [57]]))
-    S.append(('temporaries-vs-actuals', hdr + 'var g; var x;\nfunc add3(val a, val b, val c) is return b\nproc main() is { g := 1; x := 5; exit(add3(x, 2, (x - (g + 1)) - (g + 2))) }\n', [[]]))
+    S.append(('temporaries-vs-actuals', hdr + 'var g; var x;\nfunc add3(val a, val b, val c) is return b\nproc main() is { g := 1; x := 5; exit(add3(x, 7, (x - (g + 1)) - (g + 2))) }\n', [[]]))
     S.append(('temporary-before-call-actual', hdr + 'var g;\nfunc id(val a) is return a\nfunc pick(val a, val b) is return (a + a) + b\nproc main() is { g := 3; exit(pick((g - (g - 1)) - (g - 2), id(7))) }\n', [[]]))
     S.append(('empty-string', hdr + 'func len(array s) is return s[0]\nproc main() is exit(len("") + (len("abc") + len("")))\n', [[]]))
     S.append(('proc-named-lab0', hdr + 'var g;\nproc lab0() is g := g + 1\nproc main() is { g := 1; lab0(); exit(g) }\n', [[]]))
